@@ -1,6 +1,7 @@
 """C20 -- a failing pipeline call leaves the process environment as it found it."""
 import itertools
 import os
+import time
 
 from harness import common as C
 from translate import c20 as T
@@ -10,17 +11,29 @@ PROPS_V = 'C20/Props.v'
 LEVEL = 'proof'
 TRUSTED = [
     'translate/c20.py: Python ast -> environment-program skeleton (idioms: save/get/del/pop/set/restore, try/finally/except, '
-    'literal-tuple loops unrolled, writers of the same module inlined, everything else = Call that may raise)',
-    'C20.Model.accepts (trace matcher, evaluated by vm_compute) checks on every real run that the skeleton covers the observed os.environ operations; proved complete (C20_accepts_complete: every execution trace of a skeleton is accepted), its soundness (accepted => some execution has that trace) is not proved',
-    'harness/impl/c20_impl.py: sys.settrace fault injector + tracing os.environ wrapper; CPython exception/finally semantics',
-    'collaborators in other modules do not write the environment (observed on every run through the full-environment diff, not proved)',
+    'literal-tuple loops unrolled, everything else = Call that may raise) and the call graph over pydl (names through definitions and '
+    'imports, attributes of imported modules, methods by name for unknown receivers) that decides which callees may write the environment: '
+    'callees that may write are inlined (any module) or listed in uninlined_writers, and C20_collaborators_do_not_write re-proves '
+    'uninlined_writers = [] on every run',
+    'C20.Model.accepts (trace matcher, evaluated by vm_compute) checks on every real run that the skeleton covers the observed os.environ operations; '
+    'proved sound and complete for the control-flow semantics `runs` (C20_accepts_iff_runs) and complete for exec (C20_accepts_complete); '
+    'it does not track the data flow between operations (C20_runs_not_exec_sound shows the gap), presence flags are checked separately by `consistent`',
+    'harness/impl/c20_impl.py: sys.settrace fault injector + tracing os.environ wrapper (frame-based attribution of operations to the entry point / inlined helpers; '
+    'writes by any other frame are reported), os.putenv/os.unsetenv wrapped; CPython exception/finally semantics',
+    'code outside pydl (numpy, astropy, matplotlib, the standard library) does not write the environment: observed on every run through the '
+    'full-environment diff and the foreign-write log, not proved',
 ]
 ASSUMPTIONS = [
-    'faults are injected at Python-level calls made directly by the entry point (and by template_metadata); C-level builtins are not fault points',
-    'template_input is driven through its dump-file path (readspec/skymask/preprocess_spectra are skipped when the dump file exists); fault points before and after that branch are all exercised',
+    'faults are injected at Python-level calls made directly by the entry point (and by the helpers inlined in its skeleton); C-level builtins are not fault points',
+    'template_input is driven through its dump-file path (readspec/skymask/preprocess_spectra are skipped when the dump file exists) and, without a dump file, '
+    'up to the failure of readspec on the missing spPlate files; fault points before and after that branch are all exercised',
+    'window_score runs its real scoring stage on synthetic window_flist/fpFieldStat/psField files (sdss_name and sdss_path are executed for every field); '
+    'under numpy 2 the stage then fails inside sdss_score (int32 & uint64, np.find), so the return path of window_score is explored with a stub for sdss_score',
 ]
 
-DEFAULT_VARS = {'window_score': ['PHOTO_CALIB', 'PHOTO_RESOLVE'], 'template_input': ['RUN2D', 'RUN1D']}
+DEFAULT_VARS = {'window_score': ['PHOTO_CALIB', 'PHOTO_RESOLVE'], 'template_input': ['RUN2D', 'RUN1D'],
+                'window_read': ['PHOTO_RESOLVE', 'PHOTO_CALIB']}
+TARGETS = ('window_score', 'template_input', 'window_read')
 _meta = {}
 
 
@@ -32,7 +45,9 @@ def translate(ctx):
     else:
         info['restored_committed_file'] = C.restore_generated('coq/Generated/EnvSkeletons.v')
         info['note'] = 'source shape not recognised; the committed Generated/EnvSkeletons.v is kept and only the fault-injection run ties the result to the code'
+    _meta.clear()
     _meta.update(info.get('functions', {}))
+    _meta['<info>'] = {k: v for k, v in info.items() if k != 'functions'}
     return {'EnvSkeletons': info}
 
 
@@ -49,6 +64,55 @@ def ev_term(ev, names):
 HEADER = '''From Coq Require Import List. Import ListNotations.
 From PV Require Import C20.Model Generated.EnvSkeletons.'''
 
+FILEVAL = {'RUN2D': 'v9_9_9', 'RUN1D': 'v8_8_8'}
+
+
+def touched_choices(v):
+    """initial states of a touched variable: some other value / unset / the empty string / (template_input) the very
+    value the parameter file is about to set -- restoration keyed on "did it change?" or on truthiness shows only there"""
+    c = ['orig-value', None, '']
+    if v in FILEVAL:
+        c.append(FILEVAL[v])
+    if v == 'PHOTO_RESOLVE':
+        c = ['orig-value', None]          # must be a usable directory or absent
+    return c
+
+
+def extra_states(extras, rng, n_random, full):
+    """initial states of the variables that reachable code READS but the entry point does not touch: a usable directory /
+    unset / the empty string.  Structured part: all set, all unset, all empty, each one alone set, each one alone
+    unset, each one alone empty; plus random assignments (or the full product when it is small enough)."""
+    if not extras:
+        return [{}]
+    vals = ['@dir', None, '']
+    if full and len(vals) ** len(extras) <= 729:
+        return [dict(zip(extras, combo)) for combo in itertools.product(vals, repeat=len(extras))]
+    out = [dict((e, v) for e in extras) for v in vals]
+    for e in extras:
+        out.append(dict(((x, '@dir' if x == e else None) for x in extras)))
+        out.append(dict(((x, None if x == e else '@dir') for x in extras)))
+        out.append(dict(((x, '' if x == e else '@dir') for x in extras)))
+    for _ in range(n_random):
+        out.append(dict((e, rng.choice(vals)) for e in extras))
+    seen = []
+    for s in out:
+        if s not in seen:
+            seen.append(s)
+    return seen
+
+
+def run_batches(target, workdir, names, inlined, runs):
+    if not runs:
+        return []
+    nb = max(1, min(C.NPROC, len(runs)))
+    outs = C.run_impl_parallel('c20_impl.py', [{'target': target, 'workdir': workdir, 'vars': names, 'inlined': inlined, 'runs': runs[i::nb]}
+                                                for i in range(nb)])
+    res = [None] * len(runs)
+    for i, o in enumerate(outs):
+        for k, r in enumerate(o['results']):
+            res[i + k * nb] = r
+    return res
+
 
 def correspond(ctx, proof_ok=True):
     ok, log = C.coq_make(['C20/Model.vo', 'Generated/EnvSkeletons.vo'])
@@ -56,93 +120,126 @@ def correspond(ctx, proof_ok=True):
         raise RuntimeError('C20 model does not build:\n' + log[-2000:])
     if not _meta:
         translate(ctx)
-    all_runs = []      # (target, run, result)
-    for target in ('window_score', 'template_input'):
-        names = (_meta.get(target) or {}).get('vars') or DEFAULT_VARS[target]
+    all_runs = []      # (target, names, run, result)
+    cov_states = {}
+    timing = {}
+    for target in TARGETS:
+        meta = _meta.get(target) or {}
+        names = list(meta.get('vars') or DEFAULT_VARS[target])
         for v in DEFAULT_VARS[target]:
             if v not in names:
-                names = names + [v]
+                names.append(v)
+        inlined = list(meta.get('inlined') or [])
+        # variables read by code reachable from the entry point (call graph of translate/c20.py), not touched by it
+        extras = [v for v in (meta.get('reads') or []) if v not in names]
         workdir = os.path.join(ctx.work, target)
-        # initial states of the touched variables: unset / some other value / the empty string / (template_input) the very
-        # value the parameter file is about to set -- restoration logic keyed on "did it change?" or on truthiness shows only there
-        FILEVAL = {'RUN2D': 'v9_9_9', 'RUN1D': 'v8_8_8'}
-        def choices(v):
-            c = ['orig-value', None, '']
-            if v in FILEVAL:
-                c.append(FILEVAL[v])
-            if v == 'PHOTO_RESOLVE':
-                c = ['orig-value', None]          # must be a usable directory or absent
-            return c
-        states = [dict(zip(names, combo)) for combo in itertools.product(*[choices(v) for v in names])]
-        variants = [{'rescore': False, 'stub_score': True}, {'rescore': True, 'stub_score': True},
-                    {'rescore': False, 'stub_score': False}] if target == 'window_score' else [{'flux': False}, {'flux': False, 'method': 'hmf'}]
-        if target == 'template_input' and ctx.thorough:
-            variants.append({'flux': True})
+        base_extra = dict((e, '@dir') for e in extras)
+        states = [dict(base_extra, **dict(zip(names, combo))) for combo in itertools.product(*[touched_choices(v) for v in names])]
+        if target == 'window_score':
+            variants = [{'rescore': False, 'stub_score': True}, {'rescore': True, 'stub_score': True},
+                        {'rescore': False, 'stub_score': False}]
+            deep = [{'rescore': False, 'stub_score': False}]
+        elif target == 'window_read':
+            variants = [{'stub_score': True}, {'stub_score': False}]
+            deep = [{'stub_score': False}]
+        else:
+            variants = [{'flux': False}, {'flux': False, 'method': 'hmf'}]
+            if ctx.thorough:
+                variants.append({'flux': True})
+            deep = [{'flux': False, 'nodump': True}]
         base = []
         for st in states:
             for va in variants:
-                base.append({'init': st, 'fault': None, 'args': va})
-        # phase 1: fault-free runs (also creates the input files once)
-        first = C.run_impl('c20_impl.py', {'target': target, 'workdir': workdir, 'vars': names, 'runs': base[:1]})
+                base.append({'init': st, 'fault': None, 'args': va, 'family': 'touched-states'})
+        # the read-variable family: every touched variable set, the read variables in all the states above; the real
+        # collaborators run (no stub, no dump file) so that whatever they do with these variables happens
+        xs = extra_states(extras, ctx.rng, ctx.n(6, 40), ctx.thorough)
+        cov_states[target] = {'touched': names, 'read_by_reachable_code': extras, 'touched_states': len(states), 'read_states': len(xs),
+                              'reads_with_computed_key': bool(meta.get('reads_unknown_key'))}
+        for xst in xs:
+            st = dict(xst, **dict((v, 'orig-value') for v in names))
+            for va in deep:
+                base.append({'init': st, 'fault': None, 'args': va, 'family': 'read-states'})
+        # phase 1: fault-free runs (the first one alone: it creates the input files)
+        t0 = time.time()
+        first = C.run_impl('c20_impl.py', {'target': target, 'workdir': workdir, 'vars': names, 'inlined': inlined, 'runs': base[:1]})
         optkeys = (first.get('paths') or {}).get('optional_keywords') or []
         if target == 'template_input' and optkeys:
             # the source reads parameter-file keywords the standard file does not define: run every initial state
             # once more with a file that sets them, so that code guarded by `'key' in par` is exercised as well
             for st in states:
-                base.append({'init': st, 'fault': None, 'args': {'flux': False, 'optional_keywords': True}})
+                base.append({'init': st, 'fault': None, 'args': {'flux': False, 'optional_keywords': True}, 'family': 'touched-states'})
         ctx.coverage.setdefault('optional_keywords', {})[target] = optkeys
-        nb = min(C.NPROC, max(1, len(base) - 1))
-        rest = base[1:]
-        outs = C.run_impl_parallel('c20_impl.py', [{'target': target, 'workdir': workdir, 'vars': names, 'runs': rest[i::nb]}
-                                                    for i in range(nb)]) if rest else []
-        res0 = [first['results'][0]] + [None] * len(rest)
-        for i, o in enumerate(outs):
-            for k, r in enumerate(o['results']):
-                res0[1 + i + k * nb] = r
+        res0 = [first['results'][0]] + run_batches(target, workdir, names, inlined, base[1:])
         ctx.coverage['pydl_file'] = first['pydl_file']
+        timing[target + ':fault-free'] = round(time.time() - t0, 1)
+        t0 = time.time()
         # phase 2: every fault point of every (state, variant)
         fault_runs = []
         for b, r in zip(base, res0):
             all_runs.append((target, names, b, r))
             n = r['ncalls']
-            both_set = all(v == 'orig-value' for v in b['init'].values())
-            stride = 1 if (ctx.thorough or target == 'window_score') else (2 if both_set else 13)
+            both_set = all(b['init'].get(v) == 'orig-value' for v in names)
+            if ctx.thorough:
+                stride = 1
+            elif target != 'template_input':
+                # every call index, unless helpers with long call sequences are inlined: then an even sample
+                stride = max(1, n // (12 if b['family'] == 'read-states' else 40))
+            elif b['family'] == 'read-states':
+                stride = 5
+            else:
+                stride = 2 if both_set else 13
             for k in range(0, n, stride):
                 fault_runs.append(dict(b, fault=k))
-        nb = C.NPROC
-        outs = C.run_impl_parallel('c20_impl.py', [{'target': target, 'workdir': workdir, 'vars': names, 'runs': fault_runs[i::nb]}
-                                                    for i in range(nb) if fault_runs[i::nb]])
-        res = [None] * len(fault_runs)
-        for i, o in enumerate(outs):
-            for k, r in enumerate(o['results']):
-                res[i + k * nb] = r
-        for b, r in zip(fault_runs, res):
+        for b, r in zip(fault_runs, run_batches(target, workdir, names, inlined, fault_runs)):
             all_runs.append((target, names, b, r))
+        timing[target + ':faults'] = round(time.time() - t0, 1)
     # Coq: does the generated skeleton accept each observed trace; restoration verdicts
+    t0 = time.time()
     terms = []
     for target, names, run, r in all_runs:
-        tr = C.coq_list([ev_term(e, names) for e in r['trace']])
+        nm = list(names)
+        for e in r['trace']:
+            if e[1] not in nm:
+                nm.append(e[1])      # a variable outside the skeleton: no skeleton accepts an operation on it
+        tr = C.coq_list([ev_term(e, nm) for e in r['trace']])
         restored = not r['env_diff']
-        terms.append('(CRun %s_skel %s_vars %s %s %s)' % (target, target, tr, C.boollit(r['outcome'] == 'raised'), C.boollit(restored)))
+        pres = C.coq_list([C.boollit(r['presence'][v] if v in r.get('presence', {}) else run['init'].get(v) is not None) for v in nm])
+        terms.append('(CRunP %s_skel %s_vars %s %s %s %s)' % (target, target, pres, tr, C.boollit(r['outcome'] == 'raised'), C.boollit(restored)))
     cc = C.CoqCases(ctx.work, HEADER, 'run_cases', shard=40)
     verdicts = cc.run(terms)
+    timing['coq-evaluation'] = round(time.time() - t0, 1)
     dist = {}
     for (target, names, run, r), v in zip(all_runs, verdicts):
-        k = '%s:%s:%s' % (target, 'fault' if run['fault'] is not None else 'nofault', r['outcome'])
+        k = '%s:%s:%s:%s' % (target, run['family'], 'fault' if run['fault'] is not None else 'nofault', r['outcome'])
         dist[k] = dist.get(k, 0) + 1
     fired = sum(1 for _, _, run, r in all_runs if run['fault'] is not None and r['fired_at'])
+    info = _meta.get('<info>') or {}
     ctx.coverage.update({
         'evaluations': len(all_runs),
-        'distinct_nontrivial': len(set((t, str(sorted(run['init'].items())), str(run['args']), run['fault']) for t, _, run, _ in all_runs if run['fault'] is not None)),
-        'rule': 'one evaluation = one real execution of window_score / template_input with an exception injected at the k-th '
-                'Python-level call made by the entry point (k = every call index of the fault-free run; in the quick tier template_input uses every 2nd index '
-                'with both variables set to an unrelated value and every 13th for the other states: unset, empty string, or equal to the value the parameter file sets), for every combination of initial states of the touched variables (unset / other value / empty string / for RUN2D,RUN1D also the value the parameter file sets); '
-                'the full process environment is compared before/after and the observed os.environ operations must be a trace of the '
-                'generated skeleton (Coq: accepts).  non-trivial = a run with an injected fault; distinct by (entry point, state, variant, k)',
+        'distinct_nontrivial': len(set((t, str(sorted(run['init'].items(), key=str)), str(run['args']), run['fault']) for t, _, run, _ in all_runs if run['fault'] is not None)),
+        'rule': 'one evaluation = one real execution of window_score / template_input / window_read with an exception injected at the k-th '
+                'Python-level call made by the entry point or a helper inlined in its skeleton (k = every call index of the fault-free run; in the quick tier template_input uses every 2nd index '
+                'with both variables set to an unrelated value and every 13th for the other states: unset, empty string, or equal to the value the parameter file sets). '
+                'Family touched-states: every combination of initial states of the touched variables (unset / other value / empty string / for RUN2D,RUN1D also the value the parameter file sets). '
+                'Family read-states: the variables that code reachable from the entry point reads (derived by the call graph of translate/c20.py) in the states usable directory / unset / empty '
+                '(all set, all unset, all empty, each alone set / unset / empty, random assignments; the full product in the thorough tier), with the real collaborators '
+                '(sdss_score on synthetic fpFieldStat/psField files; template_input without a dump file). '
+                'The full process environment is compared before/after, every write to os.environ (os.putenv, os.unsetenv) by a frame that is not the entry point or an inlined helper is logged, '
+                'and the observed os.environ operations must be a trace of the generated skeleton (Coq: accepts) whose presence flags are consistent with the initial state (Coq: consistent). '
+                'non-trivial = a run with an injected fault; distinct by (entry point, state, variant, k)',
         'runs_by_kind': dist,
+        'seconds': timing,
+        'initial_states': cov_states,
+        'call_graph': {'env_writers_in_package': info.get('env_writers_in_package'), 'uninlined_writers': info.get('uninlined_writers'),
+                       'reachable_units': dict((t, (_meta.get(t) or {}).get('reachable_units')) for t in TARGETS),
+                       'inlined': dict((t, (_meta.get(t) or {}).get('inlined')) for t in TARGETS)},
         'faults_fired': fired,
         'not_restored': sum(1 for v in verdicts if v & 2),
         'trace_not_accepted': sum(1 for v in verdicts if v & 1),
+        'foreign_writes': sum(1 for _, _, _, r in all_runs if r.get('foreign_writes')),
+        'deepest_failures': sorted(set('%s: %s' % (t, (r['exc'] or '')[:60]) for t, _, run, r in all_runs
+                                       if run['fault'] is None and r['outcome'] == 'raised'))[:12],
         'samples': [{'target': t, 'init': run['init'], 'fault': run['fault'], 'args': run['args'], 'outcome': r['outcome'],
                      'exc': r['exc'], 'fired_at': r['fired_at'], 'trace': r['trace'], 'env_diff': r['env_diff']}
                     for t, _, run, r in (all_runs[:2] + all_runs[-2:])],
@@ -154,17 +251,30 @@ def correspond(ctx, proof_ok=True):
             if sig in seen:
                 continue
             seen.add(sig)
-            ctx.violation(sig, '%s leaves %s changed when call #%s (%s) fails' % (target, sorted(r['env_diff']), run['fault'], r['fired_at']),
+            where = 'call #%s (%s) fails' % (run['fault'], r['fired_at']) if run['fault'] is not None else \
+                'it %s (%s) from the initial state %s' % (r['outcome'], (r['exc'] or 'no exception')[:60],
+                                                         dict((k, x) for k, x in run['init'].items() if k not in names or x != 'orig-value'))
+            ctx.violation(sig, '%s leaves %s changed when %s%s' % (target, sorted(r['env_diff']), where,
+                                                                   '; written by %s' % r['foreign_writes'][0][2] if r.get('foreign_writes') else ''),
                           {'kind': 'failing-input', 'target': target, 'init': run['init'], 'fault': run['fault'], 'args': run['args'],
-                           'vars': names, 'observed': r, 'coq_case': term[:2000], 'verdict': v}, True)
+                           'vars': names, 'inlined': (_meta.get(target) or {}).get('inlined') or [],
+                           'observed': r, 'coq_case': term[:2000], 'verdict': v}, True)
         elif v & 1:
             sig = 'C20:%s:trace-not-in-skeleton' % target
+            if r.get('foreign_writes'):
+                sig = 'C20:%s:collaborator-writes-environment:%s' % (target, ','.join(sorted(set(w[1] for w in r['foreign_writes']))))
             if sig in seen:
                 continue
             seen.add(sig)
-            ctx.violation(sig, 'observed os.environ operations of %s are not a behaviour of the generated skeleton' % target,
+            ctx.violation(sig, 'observed os.environ operations of %s are not a behaviour of the generated skeleton%s' % (
+                target, ' (written by %s)' % r['foreign_writes'][0][2] if r.get('foreign_writes') else ''),
                           {'kind': 'broken-correspondence', 'item': 'C20.Model.accepts %s_skel' % target, 'init': run['init'],
                            'fault': run['fault'], 'args': run['args'], 'observed': r, 'coq_case': term[:2000]}, False)
+    # the call-graph obligation, reported with its reason (Props.v: C20_collaborators_do_not_write fails on it)
+    for u in info.get('uninlined_writers') or []:
+        ctx.violation('C20:uninlined-environment-writer', 'a collaborator that may write the environment cannot be placed in the skeleton: %s' % u,
+                      {'kind': 'broken-proof', 'item': 'C20_collaborators_do_not_write', 'detail': info.get('uninlined_writers')}, False)
+        break
 
 
 def replay(ctx, rep):
@@ -172,6 +282,7 @@ def replay(ctx, rep):
         print('replay file has no fault schedule (kind=%s item=%s)' % (rep.get('kind'), rep.get('item')))
         return 2
     out = C.run_impl('c20_impl.py', {'target': rep['target'], 'workdir': os.path.join(ctx.work, 'replay'), 'vars': rep['vars'],
+                                     'inlined': rep.get('inlined') or [],
                                      'runs': [{'init': rep['init'], 'fault': rep['fault'], 'args': rep['args']}]})
     print('schedule:', rep['target'], rep['init'], 'fault at call', rep['fault'])
     print('now     :', out['results'][0])
